@@ -195,21 +195,26 @@ def subOffset (v : IdVal) (off : Option (Int × Int)) : IdVal :=
   | .coord x y p, some (ox, oy) => .coord (x - ox) (y - oy) p
   | v, _ => v
 
-def genSam (d : Desc) (c : Compiled) (off : Option (Int × Int)) : D (List SamRule) := do
-  let sbr := (c.nis.filter fun ni => (epOf d ni).isSbr).reverse
-  let rules := sbr.flatMap fun ni =>
+/-- the rules of the system address map: subordinate interfaces in reverse order, each with its
+    ranges in declaration order -/
+def samRules (d : Desc) (c : Compiled) (off : Option (Int × Int)) : List SamRule :=
+  ((c.nis.filter fun ni => (epOf d ni).isSbr).reverse).flatMap fun ni =>
     ni.ranges.zipIdx.map fun (r, i) =>
       let nm := niEnumSnake d ni ++
         (match r.desc with
          | some dsc => "_" ++ dsc
          | none => if ni.ranges.length > 1 then "_" ++ toString i else "") ++ "_sam_idx"
       { dest := subOffset ni.id off, range := r, name := nm }
-  if rules.any fun r => r.range.stop > (2 : Int) ^ d.addrW then
+
+def samAsMap (rules : List SamRule) : List (MapRule Unit) :=
+  rules.map fun r => { dest := (), start := r.range.start, stop := r.range.stop, size := r.range.size }
+
+def genSam (d : Desc) (c : Compiled) (off : Option (Int × Int)) : D (List SamRule) :=
+  let rules := samRules d c off
+  if (rules.any fun r => decide (r.range.stop > (2 : Int) ^ d.addrW)) = true then
     throw (.range "Address range exceeds the address space")
-  let asMap : List (MapRule Unit) := rules.map fun r =>
-    { dest := (), start := r.range.start, stop := r.range.stop, size := r.range.size }
-  if !checkNoOverlap asMap then throw (.overlap "Overlapping ranges")
-  pure rules
+  else if checkNoOverlap (samAsMap rules) = false then throw (.overlap "Overlapping ranges")
+  else pure rules
 
 structure Routed where
   c : Compiled
